@@ -1045,9 +1045,22 @@ impl Entry {
                     .filter_map(|c| c.as_token().map(|t| t.text()))
                     .collect::<String>();
                 let formatted = format_value(self.key().as_ref().unwrap(), &concat);
-                crate::lex::lex_inline(&formatted)
-                    .map(|(k, t)| (k, t.to_string()))
-                    .collect::<Vec<_>>()
+                // Every line of the formatter's output is value text. (Lexing it as a document
+                // fragment turned an unindented continuation line into a KEY token.)
+                let mut tokens = vec![];
+                for (i, line) in formatted.split('\n').enumerate() {
+                    if i > 0 {
+                        tokens.push((NEWLINE, "\n".to_string()));
+                    }
+                    let text = line.trim_start_matches([' ', '\t']);
+                    if text.len() < line.len() {
+                        tokens.push((WHITESPACE, line[..line.len() - text.len()].to_string()));
+                    }
+                    if !text.is_empty() {
+                        tokens.push((VALUE, text.to_string()));
+                    }
+                }
+                tokens
             } else {
                 content
                     .into_iter()
